@@ -36,4 +36,23 @@ CHECKS = {
               "mutators on every source - checked by TLC on the faithful model and re-checked on the real code on every edge."),
         design_ref="DESIGN.md section 7 C08",
         note=_OPS_NOTE + " The global (cluster-level) clause is decided by the Cluster model once it is bound; until then only the local clauses are claimed."),
+    "C09": dict(
+        engine="tlc + h-crdt",
+        technique="TLC exhaustive model checking of MC_HLC over boundary grids + edge-complete replay on the real HLCTimestamp + TLC trace validation of random runs",
+        text=("HLC.tla transcribes send/recv with the real constants (drift 1 025 000 x 4 ms, counter max 65 535); TLC checks the C09 action "
+              "properties for every interleaving of send/recv with arbitrary non-monotonic wall-clock readings and remote stamps drawn from "
+              "boundary grids; every edge is re-executed on the real HLCTimestamp with an injected wall clock and judged from observables "
+              "(result > everything issued/accepted before, own node id, drift bound, failure leaves the clock untouched); random runs of the "
+              "real clock are validated by Trace_HLC.tla."),
+        design_ref="DESIGN.md section 7 C09",
+        note="Trusted: TLC, the wall-clock injection hook, grids (not all u64 values). Times below 2^32 s."),
+    "C10": dict(
+        engine="tlc + h-crdt",
+        technique="TLC enumeration of boundary grids / text classes on HLCCodec.tla, one implementation test per vector, TLC trace validation of random u64s and texts",
+        text=("HLCCodec.tla defines packing (16-bit limbs), accessors, Display and FromStr; TLC checks round trips and order preservation on the "
+              "specification over boundary grids and emits one vector per case (960 stamps, 32 400 pairs, 12 612 texts) which the harness runs on "
+              "the real code (accessors, from_u64, text, rkyv archive, comparison, parse under catch_unwind); random u64s, bit-flipped pairs and "
+              "mutated texts are logged and validated by Trace_Codec.tla."),
+        design_ref="DESIGN.md section 7 C10",
+        note="Grid + random samples with the specification as oracle; not a proof over all 2^64 values. Trusted: TLC, the limb arithmetic of the spec."),
 }
